@@ -313,7 +313,8 @@ package types
 //@ func NewCoins
 //@   trusted constructor (sorts, drops zero coins, panics on duplicates/invalid): for ONE coin the set's amount and denomination are the coin's
 //@   pure_fn
-//@   ensures len(coins) == 1 ==> singleAmt(result) == bigv[coins[0].Amount.i] && singleDenom(result) == coins[0].Denom
+//@   ensures len(coins) == 1 ==> singleAmt(result) == bigv[coins[0].Amount.i] && singleDenom(result) == coins[0].Denom && cv(result) == cvOne(coins[0].Denom, bigv[coins[0].Amount.i])
+//@   ensures len(coins) == 0 ==> cv(result) == cvZero()
 
 // ---- C42: transaction indexer ------------------------------------------------------------
 //@ func endKey
@@ -395,16 +396,39 @@ package types
 //@   trusted accessor
 //@   pure_fn
 
-// ---- C15: the fee comparison as a call event -------------------------------------------------
-// feeChk*: arguments and outcome of the most recent Coins.IsAllGTE call
-//@ ghost feeChkN int
-//@ ghost feeChkOK bool
-//@ ghost feeChkHave Coins
-//@ ghost feeChkWant Coins
+// ---- coin sets: which Go operation computes which abstract coin-value operation ------------
+// (vocabulary in /verif/contracts/trusted/40_bank.spec). Trusted until the sorted-merge code
+// (safeAdd, SafeSub, IsAllGTE ...) is itself under proof; NewCoins of one coin and of no coin
+// tie the vocabulary to concrete amounts.
+//@ func (Coins).Add
+//@   trusted coin-set arithmetic (sorted merge in safeAdd): the abstract sum
+//@   pure_fn
+//@   ensures cv(result) == cvAdd(cv(coins), cv(coinsB))
+//@ func (Coins).Sub
+//@   trusted coin-set arithmetic: the abstract difference; panics when a component would be negative
+//@   pure_fn
+//@   panics_unless !cvNeg(cvSub(cv(coins), cv(coinsB)))
+//@   ensures cv(result) == cvSub(cv(coins), cv(coinsB))
+//@ func (Coins).SafeSub
+//@   trusted coin-set arithmetic: the abstract difference and whether a component is negative
+//@   pure_fn
+//@   ensures cv(result0) == cvSub(cv(coins), cv(coinsB)) && result1 == cvNeg(cvSub(cv(coins), cv(coinsB)))
+//@ func (Coins).IsAnyNegative
+//@   trusted coin-set predicate
+//@   pure_fn
+//@   ensures result == cvNeg(cv(coins))
+//@ pure coinsValid(c CV) bool
+//@ func (Coins).IsValid
+//@   trusted coin-set predicate (sorted, positive amounts, valid denominations)
+//@   pure_fn
+//@   ensures result ==> !cvNeg(cv(coins))
 //@ func (Coins).IsAllGTE
-//@   trusted call event: records the two coin sets compared and the outcome (the comparison itself belongs to C41's coin layer, not yet proved)
-//@   modifies feeChkN, feeChkOK, feeChkHave, feeChkWant
-//@   ensures feeChkN == old(feeChkN) + 1 && feeChkOK == result && feeChkHave == coins && feeChkWant == coinsB
+//@   trusted coin-set comparison
+//@   pure_fn
+//@   ensures result == cvGTE(cv(coins), cv(coinsB))
+//@ func (Coins).String
+//@   trusted formatting
+//@   pure_fn
 
 // ---- C24: unstaking-queue keys --------------------------------------------------------------
 // timeKey: the sortable textual form of an instant (time.Format with a fixed-width UTC layout)
@@ -414,3 +438,8 @@ package types
 //@   trusted time formatting (time.Format, fixed-width sortable UTC layout): a function of the instant
 //@   pure_fn
 //@   ensures result != nil && fresh(result) && bytes(result) == timeKey(unixNano(t))
+
+// ---- error values: pure value construction ---------------------------------------------------
+//@ func CodeToDefaultMsg
+//@   trusted message text lookup by error code (string formatting only): no state change
+//@   pure_fn
